@@ -262,7 +262,13 @@ func makeUmemo(twoU, n1 int, t []int) []map[ukey]float64 {
 	for A_2i := range A[2] {
 		Asum := 0.0
 		r2Low := max(0, A_2i.n1-t[0])
-		r2High := (A_2i.twoU - A_2i.n1*(t[0]-A_2i.n1)) / N_2
+		// Integer division truncates toward zero, so a negative
+		// numerator (2U below its minimum) must be handled
+		// explicitly to get an empty range.
+		r2High := -1
+		if num := A_2i.twoU - A_2i.n1*(t[0]-A_2i.n1); num >= 0 {
+			r2High = num / N_2
+		}
 		for r2 := r2Low; r2 <= r2High; r2++ {
 			Asum += mathChoose(t[0], A_2i.n1-r2) *
 				mathChoose(t[1], r2)
